@@ -1,6 +1,14 @@
 """Shared vocabulary: abstract shapes used by several properties."""
 
 
+def matcher(R, target, **kw):
+    """contract of a stock matcher's match(): pure, returns None or a mismatch object"""
+    kw.setdefault("props", ["C06"])
+    kw.setdefault("pure", True)
+    kw.setdefault("returns", "?AMismatch")
+    return R.contract(target, **kw)
+
+
 def register(R):
     # ---- matchers --------------------------------------------------------
     # verdict of an abstract matcher on a value: an uninterpreted FUNCTION (determinism by construction)
